@@ -93,7 +93,7 @@ PROP_TARGETS: dict[str, list[str]] = {
     "C09": ["theories/MathTab.vo", "gen/MathTabGen.vo"],
     "C11": ["theories/Scopes.vo", "gen/ScopeGen.vo", "theories/QuadExact.vo", "gen/QuadGen.vo"],
     "C12": ["theories/Order.vo", "gen/SitesGen.vo"],
-    "C18": ["theories/Fmt.vo", "gen/PrecGen.vo"],
+    "C18": ["theories/Fmt.vo", "gen/PrecGen.vo", "theories/PyFmt.vo"],
     "C10": ["theories/Clamp.vo", "theories/Diag.vo", "theories/SumFact.vo", "gen/C10Gen.vo", "theories/Sym.vo", "theories/SymEq.vo"],
     "C14": ["theories/Jit.vo", "gen/JitGen.vo"],
     "C15": ["theories/Jit.vo", "gen/JitGen.vo"],
